@@ -58,6 +58,10 @@ func Pools(quick bool) []PoolDef {
 	// several methods: the same generated sets under GET next to a fixed, overlapping set under POST and a custom method
 	pools = append(pools, PoolDef{Name: "methods", Patterns: core, Paths: rsx.GenPaths(reqSegs, 3), Hosts: []string{""}, K: 2,
 		Other: []string{"/a/{p1}", "/{p0}", "/*{c0}/a", "/a"}})
+	// bytes pool: static segments whose first byte sorts below '*' ('$', '!'), between '*' and '{' ('+')
+	// and above '{' ('~'): the position of the wildcard edges among sorted children varies
+	bytesPats := append([]string{"/"}, rsx.GenPatterns([]string{"$", "!a", "+", "~", "{}", "*{}"}, 2, true, "")...)
+	pools = append(pools, PoolDef{Name: "bytes", Patterns: bytesPats, Paths: rsx.GenPaths([]string{"$", "!a", "+", "~", "b"}, 3), Hosts: []string{""}, K: k - 1})
 	// hostname pool
 	var hostPats []string
 	for _, h := range []string{"a.b", "b.a.b", "{h}.b", "a.{t}", "a{m}.b"} {
